@@ -6234,8 +6234,9 @@ static void general_invoke_callback(int decode_args_from_libffi,
         }
         else {
             a_src = args + i * 8;
-            if (a_ct->ct_flags & (CT_IS_LONGDOUBLE | CT_STRUCT | CT_UNION))
-                a_src = *(char **)a_src;
+            if ((a_ct->ct_flags & (CT_IS_LONGDOUBLE | CT_STRUCT | CT_UNION)) ||
+                ((a_ct->ct_flags & CT_PRIMITIVE_COMPLEX) && a_ct->ct_size > 8))
+                a_src = *(char **)a_src;   /* does not fit the 8-bytes slot */
         }
         a = convert_to_object(a_src, a_ct);
         if (a == NULL)
